@@ -399,6 +399,27 @@ func skeleton(r *hx.Rand, kind int, udpPort *int) []step {
 		a.transport = []string{fmt.Sprintf("RTP/AVP;unicast;client_port=%d-%d;mode=record", *udpPort, *udpPort+1)}
 		out = append(out, mk(an), mk(a), mk(own(reqPlain("RECORD", "/p", ""))), mk(own(reqPlain("PAUSE", "/p", ""))),
 			mk(own(reqPlain("TEARDOWN", "/p", ""))))
+	case 6: // play over TCP or UDP, stopped by PAUSE (the session stays)
+		a := reqPlain("SETUP", "/s", "/trackID=0")
+		if r.Bool() {
+			a.transport = []string{"RTP/AVP/TCP;unicast;interleaved=0-1"}
+		} else {
+			*udpPort += 2
+			a.transport = []string{fmt.Sprintf("RTP/AVP;unicast;client_port=%d-%d", *udpPort, *udpPort+1)}
+		}
+		out = append(out, mk(a), mk(own(reqPlain("PLAY", "/s", ""))), mk(own(reqPlain("PAUSE", "/s", ""))))
+	case 7: // record, stopped by PAUSE
+		an := reqPlain("ANNOUNCE", "/p", "")
+		an.ctype = []string{"application/sdp"}
+		an.body = sdpBody(1, r)
+		a := reqPlain("SETUP", "/p", "/trackID=0")
+		if r.Bool() {
+			a.transport = []string{"RTP/AVP/TCP;unicast;interleaved=0-1;mode=record"}
+		} else {
+			*udpPort += 2
+			a.transport = []string{fmt.Sprintf("RTP/AVP;unicast;client_port=%d-%d;mode=record", *udpPort, *udpPort+1)}
+		}
+		out = append(out, mk(an), mk(a), mk(own(reqPlain("RECORD", "/p", ""))), mk(own(reqPlain("PAUSE", "/p", ""))))
 	case 5: // play, automatic channels, trailing-slash URL
 		a := reqPlain("SETUP", "/s", "/")
 		a.transport = []string{"RTP/AVP/TCP;unicast"}
@@ -411,7 +432,22 @@ func skeleton(r *hx.Rand, kind int, udpPort *int) []step {
 
 // mutateReq applies one grammar-level mutation to a request.
 func mutateReq(r *hx.Rand, q *sreq, udpPort *int) string {
-	switch r.Intn(22) {
+	switch r.Intn(25) {
+	case 22, 23:
+		// interleaved channel pairs: not consecutive, reversed, in use, huge
+		v := "RTP/AVP/TCP;unicast;interleaved=" + hx.Pick(r, "4-6", "1-0", "0-1", "1-2", "2-3", "3-4", "0-0", "2-4", "255-256", "2147483646-2147483647")
+		for _, t := range q.transport {
+			if strings.Contains(t, "mode=record") {
+				v += ";mode=record"
+				break
+			}
+		}
+		q.transport = []string{v}
+		return "interleaved"
+	case 24:
+		q.transport = []string{hx.Pick(r, "RTP/AVP;unicast;mode=record", "RTP/AVP;unicast", "RTP/AVP/UDP;unicast;client_port=5000-5001;mode=play",
+			"RTP/AVP;multicast;mode=record", "RTP/SAVP;unicast;client_port=5000-5001", "RTP/AVP/TCP;multicast")}
+		return "transport-shape"
 	case 0:
 		q.cseq = 0
 		return "del-cseq"
@@ -455,7 +491,7 @@ func mutateReq(r *hx.Rand, q *sreq, udpPort *int) string {
 		q.query = hx.Pick(r, "deny=1", "a=b", "vlcmulticast", "a=b/")
 		return "url-query"
 	case 13:
-		q.method = hx.Pick(r, "OPTIONS", "DESCRIBE", "ANNOUNCE", "SETUP", "PLAY", "RECORD", "PAUSE", "TEARDOWN", "GET_PARAMETER", "SET_PARAMETER", "SETX", "REDIRECT", "PLAYBACK", "GET", "TEARUP")
+		q.method = hx.Pick(r, "OPTIONS", "DESCRIBE", "ANNOUNCE", "SETUP", "PLAY", "RECORD", "PAUSE", "TEARDOWN", "GET_PARAMETER", "SET_PARAMETER", "SETX", "REDIRECT", "PLAYBACK", "OPTIONSX", "TEARUP")
 		return "method"
 	case 14:
 		q.ctype = nil
@@ -504,7 +540,7 @@ func genScenario(r *hx.Rand, cfg childCfg, udpPort *int, idx int) (scenario, []s
 		}
 		sc.carriers = append(sc.carriers, car)
 	}
-	kinds := []int{0, 0, 1, 2, 3, 3, 4, 5}
+	kinds := []int{0, 0, 1, 2, 3, 3, 4, 5, 6, 7}
 	steps := skeleton(r, hx.Pick(r, kinds...), udpPort)
 	// structural mutations
 	nm := r.Intn(4)
